@@ -24,11 +24,13 @@ TIERS = {
     "quick": {"shards": 4, "cases": 1500, "timeout": 300},
     "thorough": {"shards": 16, "cases": 12000, "timeout": 3000},
 }
-FLOORS = {"quick": {"parsers_with_other_multi_line_tokens_built_in_between": 300,
+FLOORS = {"quick": {"texts_read_from_a_file_object": 1600,
+                    "parsers_with_other_multi_line_tokens_built_in_between": 300,
                     "parses_started_while_another_text_of_the_same_parser_is_read": 3000,
                     "distinct_nontrivial": 700, "trees_validated": 20000, "rollbacks": 10000,
                     "grammars_with_suffix_symbols": 1500},
-          "thorough": {"parsers_with_other_multi_line_tokens_built_in_between": 1200,
+          "thorough": {"texts_read_from_a_file_object": 6600,
+                       "parsers_with_other_multi_line_tokens_built_in_between": 1200,
                        "parses_started_while_another_text_of_the_same_parser_is_read": 12000,
                        "distinct_nontrivial": 5000, "trees_validated": 80000, "rollbacks": 100000,
                        "grammars_with_suffix_symbols": 4000}}
